@@ -35,6 +35,7 @@ class Path:
         self.trace, self.pc, self.obligations = [], [], []
         self.notes = []
         self._solver, self._synced = None, 0
+        self._atoms, self._atoms_synced = set(), 0
         self.qfacts = []        # universally quantified facts as functions index-term -> z3 Bool (instantiated at skolems)
 
     def add_qfact(self, f):
@@ -61,15 +62,37 @@ class Path:
             return True
         if z3.is_false(c):
             return False
+        # fast path: a literal over an uninterpreted predicate atom that the path condition does not mention is
+        # satisfiable either way (claiming feasibility can only add vacuous paths, never lose one)
+        a = c.arg(0) if z3.is_not(c) else c
+        if z3.is_app(a) and a.decl().kind() == z3.Z3_OP_UNINTERPRETED and a.num_args() > 0:
+            self._sync_atoms()
+            if a.get_id() not in self._atoms:
+                return True
         self.engine.stats["feasibility_checks"] += 1
-        s = self.solver()
-        t0 = time.time()
-        s.push()
+        # a fresh solver per query: z3's incremental mode (push/pop) was observed to spin inside
+        # theory_recfun::propagate, outside the reach of the timeout
+        s = z3.Solver()
+        s.set("timeout", self.engine.feas_timeout_ms)
+        s.add(*self.pc)
         s.add(c)
+        t0 = time.time()
         r = s.check()
-        s.pop()
         self.engine.stats["feasibility_s"] += time.time() - t0
         return r != z3.unsat
+
+    def _sync_atoms(self):
+        while self._atoms_synced < len(self.pc):
+            stack = [self.pc[self._atoms_synced]]
+            self._atoms_synced += 1
+            while stack:
+                t = stack.pop()
+                if z3.is_app(t) and t.decl().kind() in (z3.Z3_OP_AND, z3.Z3_OP_OR, z3.Z3_OP_NOT, z3.Z3_OP_IMPLIES, z3.Z3_OP_ITE, z3.Z3_OP_EQ):
+                    stack.extend(t.children())
+                else:
+                    self._atoms.add(t.get_id())
+                    if z3.is_app(t) and t.num_args() and t.decl().kind() != z3.Z3_OP_UNINTERPRETED:
+                        stack.extend(t.children())
 
     def solver(self):
         """Incremental solver kept in sync with this path's condition."""
@@ -121,6 +144,8 @@ class Engine:
         self.queue = []
         self.feas_timeout_ms = feas_timeout_ms
         self.max_paths = max_paths
+        self.no_feasibility = False     # frame-only verification: branches are not pruned (obligations of infeasible
+                                        # paths are vacuous anyway), which avoids thousands of solver calls
         self.stats = {"paths": 0, "feasibility_checks": 0, "feasibility_s": 0.0}
 
     def explore(self, run, nested=False):
